@@ -6,7 +6,11 @@ on a MemPipe) and the real client-side ``ClientWebSocketResponse`` (``ClientSess
 external events*:
 
     recv / send / close      application tasks calling ws.receive() (loop), ws.send_str(), ws.close(code=..)
+    recv1                    a consumer that takes exactly one message with ws.receive() and leaves the rest queued
+    recv@task / recv1@task   server side: the same two consumers in a task other than the request-handler task
     p_text / p_ping / p_pong / p_close  the peer writes a data frame, a ping, a pong, a close frame with a code
+    p_bin:N / p_txt:N        the peer writes one binary / text message of N bytes (N around and above the read queue's
+                             flow-control mark of 2 x DEFAULT_CHUNK_SIZE: the aiohttp side pauses / resumes its transport)
     p_eof / lost / lost_err  the peer closes its end / the transport is dropped without / with an error
     cancel_recv / cancel_close  task.cancel() of the task blocked in receive() / close()
     tick                     virtual time jumps to the next pending timer (heartbeat, pong, receive, close timeout)
@@ -16,8 +20,13 @@ external events*:
 each followed by `gap` loop iterations (0, 1, 2) or a full settle().  Every schedule is re-executed from scratch;
 the DFS is pruned on an abstract state signature; random longer schedules complement it.
 
+Server cells carry one more configuration bit: `handler_cancellation` of the AppRunner (the handler task is cancelled by
+the server when the connection goes away; a receive()/close() running in another task must still end).
+
 Oracle (DESIGN C13): W1 wire frames, W2 closed => transport closing, W3 close() within the close timeout,
-W4 nothing blocked in receive()/close() after the terminal event + all timeouts, W5 close code, W6 nothing in the
+W4 nothing blocked in receive()/close() after the terminal event + all timeouts - and, as its flow-control face, no
+quiescent point at which the aiohttp side holds its transport's reading paused while nothing is queued for the
+application (such a session can never see the peer's close frame or EOF) -, W5 close code, W6 nothing in the
 loop exception handler / no leaked timers or tasks.
 """
 
@@ -44,13 +53,18 @@ LEVEL_TEXT = (
     "text/ping/pong/close frame, peer EOF, connection lost with/without error, cancel of the receiver/closer, jump to the next "
     "timer, 1 s wait}, each followed by 0/1(/2) loop iterations or a full settle, is re-executed from scratch and driven to the "
     "end (DFS pruned on an abstract state signature; truncated cells are reported as not exhaustive); random schedules of up to "
-    "14 events on top. Unbounded liveness is restated as bounded progress: after the "
-    "terminal event and an advance of virtual time past every configured timeout no task may still be inside receive()/close()."
+    "14 events on top. Two focused enumerations widen the event set: 'flow' (peer messages of 300 KiB / 600 KiB / 1 MiB around the read "
+    "queue's 512 KiB flow-control mark, several queued before the application reads, a one-message consumer next to the looping one; "
+    "every schedule of <= 5 events run to quiescence and every schedule of <= 4 events whose next event may arrive while a message is "
+    "still being delivered) and 'tasks' (server: receivers inside and outside the request-handler task, AppRunner handler_cancellation "
+    "on and off, under connection loss / peer EOF / cancellation). Unbounded liveness is restated as bounded progress: after the "
+    "terminal event and an advance of virtual time past every configured timeout no task may still be inside receive()/close(); and no "
+    "quiescent point of an open session may have the transport's reading paused with nothing queued for the application."
 )
 RULE = (
     "a case = (side, config cell, event schedule with gaps) executed from scratch and driven to the end (advance past all "
     "timeouts, then handler return / close()); non-trivial = at least two actors were concurrently involved with the session "
-    "(two of: receiver blocked, closer started, peer close frame, connection fault, timer fired, cancel); distinct by schedule; "
+    "(two of: receiver blocked, closer started, peer close frame, connection fault, timer fired, cancel); distinct by (cell, schedule); "
     "interleavings = distinct abstract state signatures reached"
 )
 ASSUMPTIONS = [
@@ -60,7 +74,10 @@ ASSUMPTIONS = [
     "W5 follows RFC 6455 7.1.5 in the two unambiguous directions only: no Close frame from the peer ever reached the aiohttp side -> 1006; the peer's Close frame reached it, it wrote its own Close frame and the schedule contains no drop/cancel/timer -> the peer's code. A Close frame received but a disturbed handshake (tests pin 1006 for some of these, e.g. test_abnormal_closure_when_server_does_not_receive) is grey and counted",
     "profile P-closed-means-closing (docs/web_reference.rst 'closed: True if connection has been closed or in process of closing'): W2 is judged only at quiescent points where no task is inside close()/receive(), and at the very end",
     "receive() ending with the configured receive-timeout TimeoutError is a documented outcome (web_reference.rst receive(): ':raise asyncio.TimeoutError'), not a blocked receiver",
-    "server side: receive() is only ever called from the request-handler task (docs note 'Can only be called by the request handling task'); close()/send_str() come from other tasks (docs: 'It is safe to call close() from different task'); an injected cancel of the receiver is swallowed by the handler the way asyncio.timeout() does it",
+    "server side: the classic cells call receive() only from the request-handler task (docs note 'Can only be called by the request handling task'); the 'tasks' enumerations and every other random schedule also place it in another task, because the property statement quantifies over application calls 'from any task' (counted: fact:receiver-outside-handler-task); close()/send_str() come from other tasks (docs: 'It is safe to call close() from different task'); an injected cancel of the handler-task receiver is swallowed by the handler the way asyncio.timeout() does it - and re-raised, as asyncio.timeout() does, when a second cancellation (the server's) is pending",
+    "server cells with handler_cancellation=True: the handler task being cancelled by the server once connection_lost() was delivered is an expected end of the handler (counted: server:handler-end:cancelled); what is left of the application then closes the session from another task before the final judgement",
+    "profile P-receive-after-closed-guard (tests/test_web_websocket.py::test_multiple_receive_on_close_connection): a server-side receive() that raises RuntimeError after the terminal CLOSED message was already yielded four times is the pinned guard against read loops, not a W4 breach (counted)",
+    "flow-control face of W4 is judged from outside: MemTransport's reading flag, the peer's data messages completely delivered (stream offsets) against the data messages receive() handed out; it is not judged once close() was entered (close() consumes the queue itself) or when the peer sent control frames that may still be queued",
 ]
 FILES = [
     "aiohttp/web_ws.py",
@@ -117,8 +134,39 @@ def enc_frame(op: int, payload: bytes = b"", mask: bytes | None = None, fin: boo
     else:
         head = bytes([b0, mb | 127]) + struct.pack(">Q", n)
     if mask is not None:
-        return head + mask + bytes(c ^ mask[i & 3] for i, c in enumerate(payload))
+        return head + mask + xor_mask(payload, mask)
     return head + payload
+
+
+def xor_mask(payload: bytes, mask: bytes) -> bytes:
+    """RFC 6455 5.3 masking; long payloads go through one big-integer XOR (same result, no per-byte loop)."""
+    n = len(payload)
+    if n < 256:
+        return bytes(c ^ mask[i & 3] for i, c in enumerate(payload))
+    key = (mask * (n // 4 + 1))[:n]
+    return (int.from_bytes(payload, "big") ^ int.from_bytes(key, "big")).to_bytes(n, "big")
+
+
+KIB = 1024
+FLOW_MARK = 2 * 256 * KIB  # the documented shape of the read queue: it pauses the transport above 2 x DEFAULT_CHUNK_SIZE (256 KiB)
+# few, well chosen sizes: below the mark (two of them cross it), above it, twice the mark
+BIG_EVENTS = ["p_bin:%d" % (300 * KIB), "p_txt:%d" % (600 * KIB), "p_bin:%d" % (1024 * KIB)]
+# random schedules add the sizes next to the mark itself
+BIG_EVENTS_RANDOM = BIG_EVENTS + ["p_bin:%d" % (FLOW_MARK - 1), "p_bin:%d" % FLOW_MARK, "p_txt:%d" % (FLOW_MARK + 1), "p_txt:%d" % (300 * KIB), "p_bin:%d" % (600 * KIB)]
+BIG_MASK = b"\x5a\xc3\x96\x0f"
+_frame_cache: dict = {}
+
+
+def big_frame(op: int, n: int, masked: bool) -> bytes:
+    """one complete frame with an n-byte payload (ASCII, so that it is valid as text too); cached per process"""
+    key = (op, n, masked)
+    fr = _frame_cache.get(key)
+    if fr is None:
+        if len(_frame_cache) >= 24:
+            _frame_cache.clear()
+        payload = (b"0123456789abcdef" * (n // 16 + 1))[:n]
+        fr = _frame_cache[key] = enc_frame(op, payload, BIG_MASK if masked else None)
+    return fr
 
 
 def dec_frames(data: bytes):
@@ -186,6 +234,41 @@ QUICK_CELLS = [
 ]
 
 
+def cells_hc():
+    """server cells with the AppRunner's handler_cancellation switched on (6th element)"""
+    return [c + (True,) for c in cells() if c[0] == "server"]
+
+
+# event alphabets of the focused enumerations (WsRun.MAX overrides; everything not named keeps its default)
+OFF = {"send": 0, "p_ping": 0, "p_pong": 0, "wait": 0, "cancel_close": 0, "lost_err": 0}
+# flow control: large peer messages, several queued before the application reads, one-message and looping consumers
+FLOW_MAXC = dict(OFF, recv=1, recv1=2, close=1, p_text=1, p_close=1, p_big=3, bigs=BIG_EVENTS[:2], tick=1, cancel_recv=0)
+FLOW_MAXC_T = dict(FLOW_MAXC, bigs=BIG_EVENTS, tick=2, cancel_recv=1)
+# receivers / closers inside and outside the handler task, under connection loss / peer EOF / cancellation
+TASKS_MAXC = dict(OFF, **{"recv": 1, "recv@task": 2, "recv1@task": 1, "close": 2, "p_text": 1, "p_close": 1, "tick": 2, "cancel_recv": 1, "cancel_close": 1, "lost_err": 1})
+
+QUICK_FLOW_CELLS = [("server", True, True, False, False), ("client", False, True, True, False)]
+QUICK_TASK_CELLS = [("server", True, True, False, False), ("server", False, False, True, True)]
+
+
+def flow_deep(cell, thorough=False):
+    """large messages, every schedule of <= 5 events, each run to quiescence"""
+    return {"kind": "dfs", "tag": "flow", "cell": list(cell), "max_events": 5, "max_states": 60000 if thorough else 20000, "gaps": [GAP_SETTLE], "max_nosettle": 0,
+            "maxc": FLOW_MAXC_T if thorough else FLOW_MAXC}
+
+
+def flow_gaps(cell, thorough=False):
+    """large messages, every schedule of <= 4 events; the next event may also come while a message is still arriving"""
+    return {"kind": "dfs", "tag": "flow", "cell": list(cell), "max_events": 4, "max_states": 60000 if thorough else 20000, "gaps": [GAP_SETTLE, 0, 6] if thorough else [GAP_SETTLE, 6],
+            "max_nosettle": 2 if thorough else 1, "maxc": FLOW_MAXC_T if thorough else FLOW_MAXC}
+
+
+def tasks_dfs(cell, hc, thorough=False):
+    """server: receivers in and outside the handler task, handler_cancellation on / off"""
+    return {"kind": "dfs", "tag": "tasks", "cell": list(cell[:5]) + [hc], "max_events": 5 if thorough else 4, "max_states": 120000 if thorough else 40000, "gaps": [GAP_SETTLE, 0, 1],
+            "max_nosettle": 2 if thorough else 1, "maxc": TASKS_MAXC}
+
+
 def shards(tier, seed):
     q = tier == "quick"
     out = []
@@ -193,8 +276,14 @@ def shards(tier, seed):
         for i, c in enumerate(QUICK_CELLS):
             out.append({"kind": "dfs", "sub": i, "cell": list(c), "max_events": 4, "max_states": 40000, "gaps": [GAP_SETTLE, 0, 1], "max_nosettle": 1 if c[3] else 2,
                         "maxc": {"send": 1, "wait": 2, "tick": 3}})
+        fs, fc = QUICK_FLOW_CELLS
+        ta, tb = QUICK_TASK_CELLS
+        out.append({"kind": "multi", "sub": 20, "parts": [flow_deep(fs), tasks_dfs(ta, True), tasks_dfs(ta, False)]})
+        out.append({"kind": "multi", "sub": 21, "parts": [flow_deep(fc)]})
+        out.append({"kind": "multi", "sub": 22, "parts": [flow_gaps(fs), flow_gaps(fc)]})
+        out.append({"kind": "multi", "sub": 23, "parts": [tasks_dfs(tb, True), tasks_dfs(tb, False)]})
         for i in range(4):
-            out.append({"kind": "random", "sub": 100 + i, "n": 4000})
+            out.append({"kind": "random", "sub": 100 + i, "n": 6000})
         return out
     for i, c in enumerate(cells()):
         # all 32 cells: every schedule of <= 5 events with gaps {settle, 0, 1}, at most 2 non-settled gaps
@@ -203,6 +292,13 @@ def shards(tier, seed):
     for i, c in enumerate(cells()):
         # and every schedule of <= 4 events with gaps {settle, 0, 1, 2}, up to 3 non-settled gaps, two senders
         out.append({"kind": "dfs", "sub": 40 + i, "cell": list(c), "max_events": 4, "max_states": 120000, "gaps": [GAP_SETTLE, 0, 1, 2], "max_nosettle": 3})
+    for i, c in enumerate(c for c in cells() if not c[4]):
+        # large messages / flow control in every cell without a receive timeout (the random schedules cover the others)
+        out.append({"kind": "multi", "sub": 200 + i, "parts": [flow_deep(c, True), flow_gaps(c, True)]})
+    for i, c in enumerate(c for c in cells() if c[0] == "server"):
+        # server: receivers in and outside the handler task x handler_cancellation
+        out.append({"kind": "multi", "sub": 300 + i, "parts": [tasks_dfs(c, True, True)]})
+        out.append({"kind": "multi", "sub": 320 + i, "parts": [tasks_dfs(c, False, False)]})  # without it: <= 4 events
     for i in range(32):
         out.append({"kind": "random", "sub": 100 + i, "n": 30000})
     return out
@@ -334,7 +430,10 @@ class Closer:
 class WsRun:
     """One schedule on a fresh loop + fresh real objects."""
 
-    MAX = {"recv": 2, "send": 2, "close": 2, "p_text": 1, "p_ping": 1, "p_close": 1, "p_pong": 1, "tick": 4, "wait": 3, "cancel_recv": 1, "cancel_close": 1}
+    MAX = {"recv": 2, "send": 2, "close": 2, "p_text": 1, "p_ping": 1, "p_close": 1, "p_pong": 1, "tick": 4, "wait": 3, "cancel_recv": 1, "cancel_close": 1,
+           "p_eof": 1, "lost": 1, "lost_err": 1,
+           # the wider alphabet is switched on per shard (spec["maxc"]); the classic cells keep their event set
+           "recv1": 0, "recv@task": 0, "recv1@task": 0, "p_big": 0, "bigs": ()}
 
     def __init__(self, cell, rseed=0, maxc=None):
         from vlib.vloop import VLoop
@@ -343,7 +442,8 @@ class WsRun:
             self.MAX = dict(self.MAX, **maxc)
 
         self.cell = tuple(cell)
-        self.side, self.autoclose, self.autoping, self.hb, self.rt = self.cell
+        self.side, self.autoclose, self.autoping, self.hb, self.rt = self.cell[:5]
+        self.hc = bool(self.cell[5]) if len(self.cell) > 5 else False  # server: AppRunner(handler_cancellation=...)
         self.loop = VLoop()
         random.seed(rseed)
         self.ws = None
@@ -358,6 +458,8 @@ class WsRun:
         self.recv_log: list = []  # ("msg", type name, data) | ("exc", type name) | ("cancelled",)
         self.recv_task = None  # client: the receiver task; server: the handler task while inside the receive loop
         self.recv_cancel_injected = False
+        self.recv_in_handler = False  # the current receiver runs inside the request-handler task (server)
+        self.peer_data_ends: list = []  # stream offsets (peer -> aiohttp) at which the peer's data messages end
         self.closers: list[Closer] = []
         self.senders: list = []  # [task, outcome]
         # facts for the oracle
@@ -405,27 +507,34 @@ class WsRun:
                         except asyncio.CancelledError:
                             if not run.recv_cancel_injected:
                                 raise
-                            # the injected cancel hit before receive() was entered (asyncio.timeout()-style: swallow)
+                            # the injected cancel hit before receive() was entered (asyncio.timeout()-style: swallow,
+                            # unless somebody else - the server - asked for cancellation as well)
                             run.recv_cancel_injected = False
-                            asyncio.current_task().uncancel()
                             run.recv_live = False
                             run.recv_log.append(("cancelled",))
+                            if asyncio.current_task().uncancel() > 0:
+                                raise
                             continue
-                        if cmd == "recv":
-                            await run._recv_loop()
+                        if cmd[0] == "recv":
+                            await run._recv_loop(cmd[1])
                         else:
                             break
                     run.handler_state = "returning"
                     return ws
                 except BaseException as e:
                     run.handler_exc = type(e).__name__
-                    run.handler_state = "failed"
+                    if isinstance(e, asyncio.CancelledError) and run.hc and run.tr is not None and run.tr.lost_called:
+                        # handler_cancellation: the server cancels the handler task once connection_lost() was delivered
+                        run.handler_state = "cancelled"
+                        run.facts.add("handler-cancelled-by-server")
+                    else:
+                        run.handler_state = "failed"
                     raise
 
             async def mk():
                 app = web.Application()
                 app.router.add_get("/ws", handler)
-                return await H.make_app_server(app)
+                return await H.make_app_server(app, handler_cancellation=run.hc)
 
             st, t = lp.run_coro(mk(), max_iters=20000)
             self.runner, factory = t.result()
@@ -471,13 +580,18 @@ class WsRun:
         self.wire_start = len(self.tr.written)  # frames start after the handshake bytes
 
     # ---- application actors -------------------------------------------------------------------------
-    async def _recv_loop(self):
-        """ws.receive() until a terminal message or an exception (server: runs inside the handler task)."""
+    async def _recv_loop(self, limit=None):
+        """ws.receive() until a terminal message or an exception - or, with `limit`, until that many messages were taken
+        (server: runs inside the handler task or, for the @task consumers, in a task of its own)."""
         self.recv_live = True
         self.recv_task = asyncio.current_task()
         ws = self.ws
         try:
             while True:
+                if limit is not None:
+                    if limit <= 0:
+                        return
+                    limit -= 1
                 self.in_receive = True
                 try:
                     msg = await ws.receive()
@@ -485,15 +599,19 @@ class WsRun:
                     self.in_receive = False
                 tn = msg.type.name
                 d = msg.data
+                if isinstance(d, (bytes, bytearray)) or (isinstance(d, str) and len(d) > 32):
+                    d = f"{type(d).__name__}[{len(d)}]"  # large / binary payloads are logged by size
                 self.recv_log.append(("msg", tn, d if isinstance(d, (int, str, type(None))) else type(d).__name__))
                 if tn in ("CLOSE", "CLOSING", "CLOSED", "ERROR"):
                     return
         except asyncio.CancelledError:
             self.recv_log.append(("cancelled",))
-            if self.recv_cancel_injected and self.side == "server":
-                # the handler task itself was cancelled the way asyncio.timeout()/wait_for() do it: swallow and go on
+            if self.recv_cancel_injected and self.recv_in_handler:
+                # the handler task itself was cancelled the way asyncio.timeout()/wait_for() do it: swallow and go on -
+                # unless a second cancellation (the server's, under handler_cancellation) is pending as well
                 self.recv_cancel_injected = False
-                asyncio.current_task().uncancel()
+                if asyncio.current_task().uncancel() > 0:
+                    raise
                 return
             raise
         except BaseException as e:  # noqa
@@ -501,6 +619,12 @@ class WsRun:
 
             # "raises a connection error": ConnectionError / ClientError family, or the documented receive-timeout TimeoutError
             ok = isinstance(e, (ConnectionError, ClientError, asyncio.TimeoutError))
+            if type(e) is RuntimeError and self.side == "server" and sum(1 for x in self.recv_log if x[:2] == ("msg", "CLOSED")) >= 4:
+                # P-receive-after-closed-guard (tests/test_web_websocket.py::test_multiple_receive_on_close_connection): the
+                # server response answers the fifth receive() on a closed session with RuntimeError - a deliberate guard
+                # against read loops that ignore the terminal message; the terminal message itself was yielded four times
+                ok = True
+                self.grey["profile:P-receive-after-closed-guard"] = self.grey.get("profile:P-receive-after-closed-guard", 0) + 1
             self.recv_log.append(("exc", type(e).__name__))
             if not ok:
                 self.viol(f"W4:receive-raised:{type(e).__name__}", f"ws.receive() raised {e!r}, neither a terminal message nor a connection error; messages so far {self.recv_log}")
@@ -550,8 +674,16 @@ class WsRun:
     def enabled(self):
         ev = []
         M = self.MAX
-        if not self.recv_live and self.n("recv") < M["recv"] and (self.side == "client" or self.handler_state == "prepared"):
-            ev.append("recv")
+        if not self.recv_live:
+            # server: the handler task waits for its next command (not so once the server has cancelled it)
+            if self.side == "client" or (self.handler_state == "prepared" and not self.cmd_gate.done()):
+                for k in ("recv", "recv1"):
+                    if self.n(k) < M[k]:
+                        ev.append(k)
+            if self.side == "server" and self.handler_state in ("prepared", "cancelled"):
+                for k in ("recv@task", "recv1@task"):
+                    if self.n(k) < M[k]:
+                        ev.append(k)
         if self.n("send") < M["send"]:
             ev.append("send")
         if self.n("close") < M["close"]:
@@ -562,10 +694,14 @@ class WsRun:
                     ev.append(k)
             if self.hb and self.n("p_pong") < M["p_pong"]:
                 ev.append("p_pong")  # the peer answers (or pre-empts) the heartbeat ping
-            ev.append("p_eof")
+            if self.n("p_big") < M["p_big"]:
+                ev.extend(M["bigs"])
+            if self.n("p_eof") < M["p_eof"]:
+                ev.append("p_eof")
         if not self.tr.lost_scheduled:
-            ev.append("lost")
-            ev.append("lost_err")
+            for k in ("lost", "lost_err"):
+                if self.n(k) < M[k]:
+                    ev.append(k)
         if self.recv_live and self.n("cancel_recv") < M["cancel_recv"]:
             ev.append("cancel_recv")
         if any(c.task is not None and not c.task.done() for c in self.closers) and self.n("cancel_close") < M["cancel_close"]:
@@ -586,14 +722,18 @@ class WsRun:
         lp = self.loop
         self.events.append((kind, gap))
         self.counts[kind] = self.n(kind) + 1
-        if kind == "recv":
+        if kind in ("recv", "recv1", "recv@task", "recv1@task"):
+            limit = 1 if kind.startswith("recv1") else None
             self.recv_live = True
-            if self.side == "server":
+            self.recv_in_handler = self.side == "server" and not kind.endswith("@task")
+            if self.recv_in_handler:
                 self.recv_task = self.handler_task
-                self.cmd_gate.set_result("recv")
+                self.cmd_gate.set_result(("recv", limit))
             else:
+                if self.side == "server":
+                    self.facts.add("receiver-outside-handler-task")
                 with lp.running():
-                    self.recv_task = asyncio.Task(self._recv_loop(), loop=lp)
+                    self.recv_task = asyncio.Task(self._recv_loop(limit), loop=lp)
                 self.recv_task.add_done_callback(self._recv_task_done)
         elif kind == "send":
             slot = [None, "pending"]
@@ -607,6 +747,12 @@ class WsRun:
                 c.task = asyncio.Task(self._closer(c), loop=lp)
         elif kind == "p_text":
             self.peer.frame(OP_TEXT, b"hello")
+            self.peer_data_ends.append(len(self.peer.transport.written))
+        elif kind.startswith(("p_bin:", "p_txt:")):
+            self.counts["p_big"] = self.n("p_big") + 1
+            self.facts.add("big-message")
+            self.peer.transport.write(big_frame(OP_BIN if kind.startswith("p_bin:") else OP_TEXT, int(kind[6:]), self.peer.role == "client"))
+            self.peer_data_ends.append(len(self.peer.transport.written))
         elif kind == "p_ping":
             self.peer.frame(OP_PING, b"pp")
         elif kind == "p_pong":
@@ -626,7 +772,7 @@ class WsRun:
             self._fault("lost_err")
         elif kind == "cancel_recv":
             self.facts.add("cancel")
-            self.recv_cancel_injected = True
+            self.recv_cancel_injected = self.recv_in_handler
             self.recv_task.cancel()
         elif kind == "cancel_close":
             self.facts.add("cancel")
@@ -650,10 +796,14 @@ class WsRun:
                 cands = self._timer_candidates()
                 lp.jump_to(w)
                 self.peer.frame(*frame)
+                if base == "p_text":
+                    self.peer_data_ends.append(len(self.peer.transport.written))
                 lp.advance(0.0, max_iters=20000)
                 self._note_fired(cands)
             elif self.peer_can_send():
                 self.peer.frame(*frame)
+                if base == "p_text":
+                    self.peer_data_ends.append(len(self.peer.transport.written))
         elif kind == "tick":
             w = lp.next_timer()
             if w is not None:
@@ -671,6 +821,7 @@ class WsRun:
         if gap == GAP_SETTLE:
             lp.settle(20000)
             self.check_settled()
+            self.check_flow("at a quiescent point of the schedule")
         elif gap > 0:
             lp.step(gap)
         self.check_always()
@@ -737,6 +888,38 @@ class WsRun:
                 self.viol("W2:closed-but-transport-open" + how, f"ws.closed is True, no task is inside close()/receive(), transport.is_closing() is False; close_code={ws.close_code}; closers {[(c.result, c.exc) for c in self.closers]}")
             self._w6_timers("at a quiescent point of the schedule")
 
+    def reading_paused(self):
+        """the aiohttp side told its (still open) transport not to read"""
+        return not self.tr.closing and not self.tr.reading
+
+    def data_messages(self):
+        """(peer data messages that reached the aiohttp side completely, data messages the application got from receive())"""
+        got = self.peer.transport.delivered
+        return sum(1 for e in self.peer_data_ends if e <= got), sum(1 for e in self.recv_log if e[0] == "msg" and e[1] in ("TEXT", "BINARY"))
+
+    def check_flow(self, when):
+        """W4, flow-control face: at a quiescent point of an open session the transport's reading may only be paused while
+        something is queued for the application - taking it is the only thing that resumes reading.  Paused with nothing
+        to take, the session can never see the peer's next frame, its close frame or its EOF: receive() blocks for good and
+        close() can only run into its timeout.  Judged from the outside: (a) a task is parked inside receive() (whatever
+        was queued it would have taken), or (b) every data message that reached the aiohttp side has been handed to
+        the application and the peer never sent a control frame."""
+        if not self.reading_paused():
+            return
+        self.facts.add("reading-paused")
+        if self.loop._ready or self.ws.closed or any(c.entered for c in self.closers):
+            return
+        arrived, taken = self.data_messages()
+        parked = self.recv_live and self.in_receive
+        ctl = self.n("p_ping") + self.n("p_pong") + self.n("p_close")
+        if parked or (arrived <= taken and ctl == 0):
+            self.viol(
+                "W4:session-stranded:reading-paused-with-nothing-queued",
+                f"{when}: the transport is open and its reading is paused, but nothing is left for the application to take "
+                f"({arrived} data message(s) arrived, {taken} handed out by receive(), receiver parked in receive(): {parked}); "
+                f"{len(self.peer.transport.out)} byte(s) of the peer wait in front of the paused transport; messages so far {self.recv_log}",
+            )
+
     # ---- end game -----------------------------------------------------------------------------------
     def peer_close_delivered(self):
         """did the peer's close frame reach the aiohttp protocol (bytes delivered while its transport was open)?"""
@@ -750,6 +933,7 @@ class WsRun:
         total = CLOSE_TIMEOUT + HEARTBEAT * 1.5 + RECV_TIMEOUT + 4 * ROUNDING + 5
         lp.settle(20000)
         self.check_settled()
+        self.check_flow("at the quiescent point after the last event")
         delivered_before_advance = self.peer_close_delivered()
         terminal = bool(self.facts & {"close-called", "fault"}) or delivered_before_advance
         # (1) let every configured timeout elapse
@@ -770,10 +954,12 @@ class WsRun:
             lp.settle(20000)
             self._w4(True, "after peer EOF and %.1fs of virtual time" % total)
         # (3) the application finishes: server handler returns (-> write_eof -> close()), client calls close()
-        if self.side == "server":
-            if self.handler_state == "prepared" and not self.recv_live and not self.cmd_gate.done():
-                self.cmd_gate.set_result("finish")
+        if self.side == "server" and self.handler_state != "cancelled":
+            if self.handler_state == "prepared" and not self.recv_in_handler_live() and not self.cmd_gate.done():
+                self.cmd_gate.set_result(("finish",))
         else:
+            # client - or a server handler that was cancelled by the server (handler_cancellation): what is left of the
+            # application closes the session from another task
             if not any(c.entered for c in self.closers) or not ws.closed:
                 c = Closer()
                 self.closers.append(c)
@@ -813,11 +999,17 @@ class WsRun:
         self._w5()
         self._w6()
 
+    def recv_in_handler_live(self):
+        return self.recv_live and self.recv_in_handler
+
     def _w4(self, terminal, when):
         if not terminal:
             return
         if self.recv_live and self.in_receive:
-            self.viol("W4:receive-blocked-forever", f"a task is still inside ws.receive() {when}; messages so far {self.recv_log}; closed={self.ws.closed} close_code={self.ws.close_code}")
+            how = ":reading-paused" if self.reading_paused() else ""
+            where = "" if self.side == "client" else (" (handler task)" if self.recv_in_handler else f" (a task other than the handler task; handler {self.handler_state})")
+            self.viol("W4:receive-blocked-forever" + how, f"a task{where} is still inside ws.receive() {when}; messages so far {self.recv_log}; closed={self.ws.closed} close_code={self.ws.close_code} "
+                      f"connection_lost delivered={bool(self.tr.lost_called)} reading paused={self.reading_paused()}")
         for i, c in enumerate(self.closers):
             if c.task is not None and not c.task.done() and c.entered:
                 self.viol("W4:close-blocked-forever", f"close() #{i} still pending {when}; closed={self.ws.closed}")
@@ -932,9 +1124,13 @@ class WsRun:
             self.tr.lost_called,
             self.peer.transport.closing,
             bool(self.peer.transport.out),
+            len(self.peer.transport.out) >> 16,
             bool(self.tr.out),
+            self.tr.reading,
+            self.recv_in_handler,
             timers,
             buf,
+            getattr(rd, "_size", None) if rd is not None else None,
             rd._eof if rd is not None else None,
             len(lp._ready),
             tuple(sorted(self.counts.items())),
@@ -986,7 +1182,7 @@ def execute(cell, schedule, rseed=0, final=False, maxc=None):
 def nontrivial(run):
     k = 0
     kinds = {x for e, _ in run.events for x in ((e[:-2], "tick") if e.endswith("@t") else (e,))}
-    k += 1 if "recv" in kinds else 0
+    k += 1 if kinds & {"recv", "recv1", "recv@task", "recv1@task"} else 0
     k += 1 if "close" in kinds else 0
     k += 1 if "p_close" in kinds else 0
     k += 1 if kinds & {"p_eof", "lost", "lost_err"} else 0
@@ -1049,6 +1245,12 @@ def report(rec, cell, schedule, run, kind, rseed=0, do_shrink=True, maxc=None):
     for s in run.senders:
         rec.count("send-outcome:" + s[1])
     rec.count(f"close_code:{run.side}:{run.ws.close_code}")
+    if run.side == "server":
+        rec.count(f"server:handler_cancellation={run.hc}")
+        rec.count(f"server:handler-end:{run.handler_state}")
+    for k in ("recv", "recv1", "recv@task", "recv1@task", "p_big"):
+        if run.n(k):
+            rec.count("event:" + k, run.n(k))
     for f in run.facts:
         rec.count("fact:" + f)
     for mech, summ in run.violations:
@@ -1064,7 +1266,7 @@ def report(rec, cell, schedule, run, kind, rseed=0, do_shrink=True, maxc=None):
                 sch = list(schedule)
         rec.violation(
             mech,
-            f"cell(side,autoclose,autoping,heartbeat,recv_timeout)={list(cell)} schedule={fmt(sch)} :: {summ}",
+            f"cell(side,autoclose,autoping,heartbeat,recv_timeout[,handler_cancellation])={list(cell)} schedule={fmt(sch)} :: {summ}",
             {"cell": list(cell), "schedule": [[k, g] for k, g in sch], "kind": kind, "rseed": rseed, "maxc": maxc},
         )
 
@@ -1121,20 +1323,37 @@ def dfs(spec, rec):
     rec.count("dfs-transitions", stats["transitions"])
     rec.count("dfs-complete-schedules", stats["complete"])
     name = f"{cell[0]}:autoclose={cell[1]},autoping={cell[2]},heartbeat={cell[3]},recv_timeout={cell[4]},events<={spec['max_events']},gaps={gaps}"
+    if len(cell) > 5 or spec.get("tag"):
+        name += f",handler_cancellation={bool(cell[5]) if len(cell) > 5 else False},alphabet={spec.get('tag', 'classic')}"
     rec.set_exhaustive(name, not truncated[0])
     if truncated[0]:
         rec.note(f"cell {list(cell)}: state budget {budget} reached; enumeration truncated (reported as not exhaustive)")
 
 
-WEIGHTS = {"recv": 4, "send": 2, "close": 3, "p_text": 2, "p_ping": 2, "p_close": 3, "p_pong": 1.5, "p_eof": 1, "lost": 0.7, "lost_err": 0.7, "cancel_recv": 1.2, "cancel_close": 1.2, "tick": 2.5, "wait": 2.0, "p_text@t": 1.5, "p_pong@t": 1.0}
+WEIGHTS = {"recv1": 2, "recv@task": 3, "recv1@task": 1.5, "recv": 4, "send": 2, "close": 3, "p_text": 2, "p_ping": 2, "p_close": 3, "p_pong": 1.5, "p_eof": 1, "lost": 0.7, "lost_err": 0.7, "cancel_recv": 1.2, "cancel_close": 1.2, "tick": 2.5, "wait": 2.0, "p_text@t": 1.5, "p_pong@t": 1.0}
+
+
+# the wide alphabet of the random schedules: every consumer pattern, large messages around the flow-control mark
+WIDE_MAXC = {"recv1": 2, "recv@task": 2, "recv1@task": 2, "p_big": 3, "bigs": BIG_EVENTS_RANDOM}
+
+
+def weight(ev):
+    if ev.startswith(("p_bin:", "p_txt:")):
+        return 0.5
+    return WEIGHTS[ev]
 
 
 def random_schedules(spec, rec):
     rng = random.Random(spec["seed"] * 1000003 + spec["sub"] * 7919 + 13)
-    allc = cells()
+    classic = cells()
+    allc = classic + cells_hc()
     for i in range(spec["n"]):
-        cell = rng.choice(allc)
-        run = WsRun(cell, rseed=i)
+        # every other run keeps the classic alphabet and cells; the others draw from all cells (handler_cancellation
+        # included) and the wide alphabet
+        wide = bool(i & 1)
+        cell = rng.choice(allc if wide else classic)
+        maxc = WIDE_MAXC if wide else None
+        run = WsRun(cell, rseed=i, maxc=maxc)
         schedule = []
         try:
             if run.setup_error:
@@ -1143,7 +1362,7 @@ def random_schedules(spec, rec):
                 en = run.enabled()
                 if not en:
                     break
-                ev = rng.choices(en, [WEIGHTS[e] for e in en])[0]
+                ev = rng.choices(en, [weight(e) for e in en])[0]
                 r = rng.random()
                 gap = GAP_SETTLE if r < 0.55 or ev in ("tick", "wait") or ev.endswith("@t") else rng.choice([0, 0, 1, 2, 3])
                 schedule.append((ev, gap))
@@ -1152,7 +1371,7 @@ def random_schedules(spec, rec):
             run.captured = list(run.loop.captured)
         finally:
             run.finish()
-        report(rec, cell, schedule, run, "random", rseed=i)
+        report(rec, cell, schedule, run, "random", rseed=i, maxc=maxc)
         if i % 200 == 0:
             rec.sample({"cell": list(cell), "schedule": fmt(schedule), "recv": run.recv_log, "close": [(c.result, c.exc) for c in run.closers],
                         "close_code": run.ws.close_code, "frames": [OPNAME.get(f[0]) for f in run.aio_frames()]})
@@ -1161,6 +1380,9 @@ def random_schedules(spec, rec):
 def run_shard(spec, rec):
     if spec["kind"] == "dfs":
         dfs(spec, rec)
+    elif spec["kind"] == "multi":
+        for part in spec["parts"]:
+            dfs(dict(part, seed=spec["seed"], sub=spec["sub"]), rec)
     else:
         random_schedules(spec, rec)
 
